@@ -257,7 +257,7 @@ func generateNginxCfg(p NginxCfgParams) (version1.IngressNginxConfig, Warnings) 
 			if p.isMinion && cfgParams.JWTKey != "" {
 				jwtAuth, redirectLoc, warnings := generateJWTConfig(p.ingEx.Ingress, p.ingEx.SecretRefs, &cfgParams, getNameForRedirectLocation(p.ingEx.Ingress))
 				loc.JWTAuth = jwtAuth
-				if redirectLoc != nil {
+				if redirectLoc != nil && !jwtRedirectLocationExists(server.JWTRedirectLocations, redirectLoc.Name) {
 					server.JWTRedirectLocations = append(server.JWTRedirectLocations, *redirectLoc)
 				}
 				allWarnings.Add(warnings)
@@ -743,6 +743,17 @@ func generateNginxCfgForMergeableIngresses(p NginxCfgParams) (version1.IngressNg
 		StaticSSLPath:           p.staticParams.StaticSSLPath,
 		LimitReqZones:           limitReqZones,
 	}, warnings
+}
+
+// jwtRedirectLocationExists reports whether a JWT redirect location with the given name was already generated.
+// All paths of one Ingress share one redirect location, so it must be added to the server only once.
+func jwtRedirectLocationExists(locations []version1.JWTRedirectLocation, name string) bool {
+	for _, l := range locations {
+		if l.Name == name {
+			return true
+		}
+	}
+	return false
 }
 
 func limitReqZoneExists(zones []version1.LimitReqZone, zoneName string) bool {
